@@ -408,7 +408,7 @@ class WbMonitor:
             elif req and not (ack_g and dat_g == ones and error):
                 msg = ("request unanswered for %d cycles is not terminated with ack/all-ones/error: ack=%d dat_r=%#x "
                        "error=%d" % (t, ack_g, dat_g, error))
-            elif not error:
+            elif req and not error:
                 msg = "no error pulse in the expiry cycle"
         else:
             if error:
@@ -503,8 +503,8 @@ class AxSharedInst(Base):
                per slave arr rv rresp rdata rlast
        outs  : per slave awv awa wv br ; per master awr wr bv bresp ; per slave arv ara rr ;
                per master arr rv rresp rdata rlast ; error grant_w grant_r"""
-    def __init__(self, full, n, k, t, dw=8, sh=4, alphabet=None, tag=""):
-        self.full, self.n, self.k, self.t, self.dw, self.sh = full, n, k, t, dw, sh
+    def __init__(self, full, n, k, t, dw=8, sh=4, alphabet=None, tag="", kind="shared"):
+        self.full, self.n, self.k, self.t, self.dw, self.sh, self.kind = full, n, k, t, dw, sh, kind
         I = axi_full.AXIInterface if full else axi_lite.AXILiteInterface
         aw = sh + 2
         ms = [I(data_width=dw, address_width=aw) for _ in range(n)]
@@ -512,11 +512,17 @@ class AxSharedInst(Base):
         ash = (dw // 8).bit_length() - 1
         assert sh >= ash
         slaves = [((lambda a, j=j: a[sh - ash:] == j), s) for j, s in enumerate(ss)]
-        cls = axi_full.AXIInterconnectShared if full else axi_lite.AXILiteInterconnectShared
+        if kind == "shared":
+            cls = axi_full.AXIInterconnectShared if full else axi_lite.AXILiteInterconnectShared
+        else:
+            cls = axi_full.AXICrossbar if full else axi_lite.AXILiteCrossbar
         m = cls(ms, slaves, timeout_cycles=t)
         self.module, self.masters, self.slaves = m, ms, ss
         self.name = "%s(%dx%d,timeout=%s)/%db%s" % (cls.__name__, n, k, t, dw, tag)
-        self.lean_open = "axshared %d %d %d %s %d %d" % (int(full), n, k, "none" if t is None else t, dw, sh)
+        if kind == "shared":
+            self.lean_open = "axshared %d %d %d %s %d %d" % (int(full), n, k, "none" if t is None else t, dw, sh)
+        else:
+            self.lean_open = "axxbar %d %d %d %d %d" % (int(full), n, k, dw, sh)
         ins = [s for p in ms for s in (p.aw.valid, p.aw.addr, p.w.valid, p.b.ready)] + \
               [s for p in ss for s in (p.aw.ready, p.w.ready, p.b.valid, p.b.resp)] + \
               [s for p in ms for s in (p.ar.valid, p.ar.addr, p.r.ready)] + \
@@ -524,8 +530,9 @@ class AxSharedInst(Base):
         outs = [s for p in ss for s in (p.aw.valid, p.aw.addr, p.w.valid, p.b.ready)] + \
                [s for p in ms for s in (p.aw.ready, p.w.ready, p.b.valid, p.b.resp)] + \
                [s for p in ss for s in (p.ar.valid, p.ar.addr, p.r.ready)] + \
-               [s for p in ms for s in (p.ar.ready, p.r.valid, p.r.resp, p.r.data, p.r.last)] + \
-               [_error_sig(m, t), m.arbiter.rr_write.grant, m.arbiter.rr_read.grant]
+               [s for p in ms for s in (p.ar.ready, p.r.valid, p.r.resp, p.r.data, p.r.last)]
+        if kind == "shared":
+            outs += [_error_sig(m, t), m.arbiter.rr_write.grant, m.arbiter.rr_read.grant]
         q = []
         for j in range(k):
             q += [None, 4 * j, None, None]
@@ -538,7 +545,8 @@ class AxSharedInst(Base):
         for i in range(n):
             b = base + 3 * k + 5 * i
             q += [None, None, b + 1, b + 1, b + 1]
-        q += [None, None, None]
+        if kind == "shared":
+            q += [None, None, None]
         self.qual = q
         self.alphabet = alphabet or []
         self._finish(m, ins, outs)
@@ -554,7 +562,7 @@ class AxSharedInst(Base):
         return AxEnv(self, rng)
 
     def make_monitor(self):
-        if self.t is None:
+        if self.t is None or self.kind != "shared":
             return NullMonitor()
         return AxMonitor(self.n, self.k, self.t, self.dw, self.sh, self.full)
 
@@ -594,12 +602,13 @@ class AxEnv:
                    for _ in range(k)]
         self.sr = [dict(seen=0, lat=self._lat(rng), pend=[], beats=0) for _ in range(k)]
         self.prev = None
+        self.unmapped = getattr(inst, "kind", "shared") == "shared"
 
     def _lat(self, rng):
         t = self.i.t or 4
         r = rng.random()
-        if r < 0.15:
-            return None
+        if r < 0.15 and getattr(self.i, "kind", "shared") == "shared":
+            return None                     # silent (would hang a crossbar for the rest of the run)
         if r < 0.5:
             return max(0, rng.choice((t - 2, t - 1, t, t, t + 1, t + 2)))
         return rng.randint(0, max(1, min(t - 1, 5)))
@@ -694,7 +703,7 @@ class AxEnv:
                     m["gap"] -= 1
                 elif rng.random() < 0.6:
                     m["st"] = "addr"
-                    slot = k if rng.random() < 0.15 else rng.randrange(k)
+                    slot = k if (rng.random() < 0.15 and self.unmapped) else rng.randrange(k)
                     m["adr"] = (slot << sh) | rng.getrandbits(sh)
                     m["aw"], m["w"] = 1, 1
                     m["wdelay"] = rng.choice((0, 0, 0, 1, 3))
@@ -721,7 +730,7 @@ class AxEnv:
                     m["gap"] -= 1
                 elif rng.random() < 0.6:
                     m["st"] = "addr"
-                    slot = k if rng.random() < 0.15 else rng.randrange(k)
+                    slot = k if (rng.random() < 0.15 and self.unmapped) else rng.randrange(k)
                     m["adr"] = (slot << sh) | rng.getrandbits(sh)
             if m["st"] == "addr":
                 out += [1, m["adr"], 1 if rng.random() < 0.2 else 0]
